@@ -71,8 +71,14 @@ type (
 	}
 )
 
+// Pre: the denominator is not zero (see HasZeroDenominator)
 func (r RatioLiteral) ToRatio() *big.Rat {
 	return new(big.Rat).SetFrac(r.Numerator, r.Denominator)
+}
+
+// A literal like "1/0" is accepted by the grammar but does not denote a portion
+func (r RatioLiteral) HasZeroDenominator() bool {
+	return r.Denominator.Sign() == 0
 }
 
 func (a *AccountLiteral) IsWorld() bool {
